@@ -106,6 +106,13 @@ pub fn run(rng: &mut Rng, out: &mut Fails) {
     if !sym.is_symmetric() || asym.is_symmetric() { fail(out, "Matrix::is_symmetric", "C15.pred", "2x2".into(), "wrong".into(), "per definition".into()); }
     let up = Matrix::new(vec![1., 2., 0., 5.], 2, 2);
     if !up.is_upper_triangular() || up.is_lower_triangular() || !up.t().is_lower_triangular() { fail(out, "Matrix::is_upper/lower_triangular", "C15.pred", "[[1,2],[0,5]]".into(), "wrong".into(), "per definition".into()); }
+    // Matrix::with_capacity: "an empty matrix with a certain capacity" (never a panic; empty and well-formed)
+    for (r, c) in [(0usize, 0usize), (0, 3), (2, 3), (1, 1), (5, 4)] {
+        match catch(|| Matrix::with_capacity(r, c)) {
+            None => fail(out, "Matrix::with_capacity", "C15.with_capacity", format!("({}, {})", r, c), "panic".into(), "empty matrix".into()),
+            Some(m) => if m.data.len() != 0 || m.nrows * m.ncols != 0 { fail(out, "Matrix::with_capacity", "C15.with_capacity", format!("({}, {})", r, c), format!("{}x{} with {} elements", m.nrows, m.ncols, m.data.len()), "empty matrix".into()) },
+        }
+    }
     // is_square answers "the length is a perfect square" for small and for large lengths (beyond the 24-bit mantissa of an f32)
     for len in [0usize, 1, 2, 3, 4, 8, 9, 15, 16, 17, 99, 100, 101, 1 << 20, (1 << 20) + 1, 16777216, 16777217, 16785408, 16785409] {
         let v = vec![0.0f64; len];
